@@ -300,9 +300,10 @@ def main(argv=None):
         return 3
     if engine_errors or missing:
         # the engine could not model some path: try the concrete oracle before giving up
-        if hasattr(mod, "fallback_oracle"):
+        if hasattr(mod, "fallback_oracle") or hasattr(mod, "replay"):
             try:
-                fo = mod.fallback_oracle()
+                fo = mod.fallback_oracle() if hasattr(mod, "fallback_oracle") else \
+                    mod.replay("<engine could not model the code>", {})
             except Exception as ex:
                 fo = None
             if fo and fo.get("confirmed"):
